@@ -477,11 +477,14 @@ func runStore(prop string, seed int64, n int) *Result {
 			// oracle 2 (C11): results of data operations must not depend on the index configuration
 			if prop == "C11" {
 				var data []sresult
+				var dataOps []sop
 				for i, o := range v {
 					if o.kind == opCloseWatch {
 						data = append(data, sresult{kind: "ROk"}) // how much a closing stream still hands over is up to Go's select
+						dataOps = append(dataOps, o)
 					} else if o.kind != opIndex && o.kind != opUnindex {
 						data = append(data, results[i])
+						dataOps = append(dataOps, o)
 					}
 				}
 				if vi == 0 {
@@ -490,6 +493,12 @@ func runStore(prop string, seed int64, n int) *Result {
 					for i := range data {
 						if data[i].kind == "RErr" && data[i].err == "EDup" && i < len(base) && !data[i].same(base[i]) {
 							break // a unique index legitimately rejected a mutation: the histories part ways here
+						}
+						if data[i].kind == "RErr" && data[i].err == "EDup" && !dataOps[i].singleInsert() {
+							// both configurations report a duplicate, but a mutation of several documents stops at the
+							// first offending one: with a unique index that can be an earlier document than the one the
+							// primary key rejects, so the stored documents may legitimately differ from here on
+							break
 						}
 						if i < len(base) && !data[i].same(base[i]) {
 							fail = fmt.Sprintf("data operation %d returns a different result with indexes than without (variant %d)", i, vi)
@@ -508,3 +517,6 @@ func runStore(prop string, seed int64, n int) *Result {
 	res.Aux = strings.Join(storeIn.defs, "")
 	return res
 }
+
+// singleInsert: an insert of one document either stores it or changes nothing, whichever check rejects it
+func (o sop) singleInsert() bool { return o.kind == opInsert && len(o.docs) == 1 }
